@@ -1,4 +1,6 @@
 SPECIFICATION TraceSpec
+CONSTANTS
+  Level = "statement"
 CONSTRAINT Mark
 POSTCONDITION Accepted
 CHECK_DEADLOCK FALSE
